@@ -17,7 +17,7 @@ Oracles (the property evaluated on the real public call):
                   reported shock position (step halving)
   eos             p = (gamma-1) rho e, c^2 = gamma p / rho per returned point
   units           scaled / unscaled calls
-  admit, reject   constructor catalogue (C20)
+  accepts, reject constructor catalogue (C20)
 A Sedov call costs 0.1-0.4 s: budgets are small."""
 import json
 import math
@@ -489,12 +489,6 @@ def tie_models(rng, deep):
 NGRID = 3001
 
 
-def _gen(kind_choices=(None,), tlo=0.2, thi=2.0):
-    def gen(rng):
-        return dict(params=sample(rng, rng.choice(list(kind_choices))), t=rng.uniform(tlo, thi))
-    return gen
-
-
 def _solve_nodes(p, t):
     """the public call on the solver's own grid nodes 0..r2 (max(r) = r2, so no interpolation
     error except in the small-radius region the solver itself interpolates)"""
@@ -617,7 +611,7 @@ def _seq(*runs):
             return res
         tot = dict(evaluations=0, failures=[], samples=[], worst=None, distinct_nontrivial=0)
         for r in runs:
-            res = r(rng, budget / len(runs), deep)
+            res = r(rng, budget, deep)
             tot['evaluations'] += res['evaluations']
             tot['distinct_nontrivial'] += res['distinct_nontrivial']
             tot['failures'] += res['failures']
@@ -866,11 +860,6 @@ ADMISSIBLE_EDGE = [
 ]
 
 
-def _gen_reject(rng):
-    i = rng.randrange(len(VIOLATING))
-    return dict(label=VIOLATING[i][0], params=VIOLATING[i][1])
-
-
 def _check_reject(c):
     try:
         s = construct(c['params'])
@@ -890,14 +879,15 @@ def _check_reject(c):
                 detail='documented-invalid parameters %r are accepted; %s' % (c['params'], how))
 
 
-reject = O.make(_gen_reject, _check_reject, 'sedov.reject')
+def _catalogue(cases, check, name, extra=None):
+    """every catalogue entry exactly once per run (deterministic), then optional random cases"""
+    runs = [_once((lambda rng, c=c: c), check, name) for c in cases]
+    if extra is not None:
+        runs.append(extra)
+    return _seq(*runs)
 
 
-def _gen_admit(rng):
-    if rng.random() < 0.5:
-        i = rng.randrange(len(ADMISSIBLE_EDGE))
-        return dict(label=ADMISSIBLE_EDGE[i][0], params=ADMISSIBLE_EDGE[i][1])
-    return dict(label='random', params=sample(rng))
+reject = _catalogue([dict(label=l, params=q) for l, q in VIOLATING], _check_reject, 'sedov.reject')
 
 
 def _check_admit(c):
@@ -916,4 +906,5 @@ def _check_admit(c):
     return None
 
 
-admit = O.make(_gen_admit, _check_admit, 'sedov.admit')
+accepts = _catalogue([dict(label=l, params=q) for l, q in ADMISSIBLE_EDGE], _check_admit, 'sedov.admit',
+                   extra=O.make(lambda rng: dict(label='random', params=sample(rng)), _check_admit, 'sedov.admit.random'))
